@@ -5,6 +5,10 @@ import (
 	"encoding/hex"
 	"encoding/json"
 	"fmt"
+	"github.com/mosaicnetworks/babble/src/node"
+	"github.com/mosaicnetworks/babble/src/service"
+	"net/http"
+	"net/http/httptest"
 	"sort"
 
 	"github.com/mosaicnetworks/babble/src/crypto/keys"
@@ -251,9 +255,34 @@ type finState struct {
 type MonFinality struct {
 	st   map[*App]*finState
 	Prop string
+	// the node's HTTP service API (one mux per real node object)
+	api map[*node.Node]*http.ServeMux
 }
 
-func NewMonFinality() *MonFinality  { return &MonFinality{st: map[*App]*finState{}, Prop: "C02"} }
+func NewMonFinality() *MonFinality {
+	return &MonFinality{st: map[*App]*finState{}, Prop: "C02", api: map[*node.Node]*http.ServeMux{}}
+}
+
+// apiFor returns the handlers of the node's real HTTP service. The service
+// registers on http.DefaultServeMux, so every node gets a fresh default mux.
+func (m *MonFinality) apiFor(n *SimNode) *http.ServeMux {
+	if mux, ok := m.api[n.Node]; ok {
+		return mux
+	}
+	http.DefaultServeMux = http.NewServeMux()
+	service.NewService("127.0.0.1:0", n.Node, quietLogger())
+	m.api[n.Node] = http.DefaultServeMux
+	return m.api[n.Node]
+}
+
+func apiGet(mux *http.ServeMux, path string, into interface{}) (int, error) {
+	rec := httptest.NewRecorder()
+	mux.ServeHTTP(rec, httptest.NewRequest("GET", path, nil))
+	if rec.Code != 200 {
+		return rec.Code, fmt.Errorf("status %d: %s", rec.Code, trunc(rec.Body.String(), 100))
+	}
+	return rec.Code, json.Unmarshal(rec.Body.Bytes(), into)
+}
 func (m *MonFinality) Name() string { return "finality" }
 
 func expectedStoredBody(d *Delivered) string {
@@ -417,6 +446,50 @@ func (m *MonFinality) AfterStep(nw *Network) {
 			}
 			if len(cur) > len(prev) {
 				nw.Res.count("finality_signature_growth_observed", 1)
+			}
+			// the same block through the HTTP service API
+			if nw.Step%5 == 0 && i > s.lastIndex-4 {
+				mux := m.apiFor(n)
+				var hb hg.Block
+				if _, err := apiGet(mux, fmt.Sprintf("/block/%d", i), &hb); err != nil {
+					nw.violate(m.Prop, m.Prop+":delivered-block-unreadable",
+						fmt.Sprintf("node %d: the HTTP API cannot serve delivered block %d: %v", n.Idx, i, err), map[string]interface{}{"node": n.Idx})
+					return
+				}
+				nw.Res.count("finality_rereads_through_http_api", 1)
+				if g := normBody(hb.Body); g != want || hb.Index() != i {
+					nw.violate(m.Prop, m.Prop+":delivered-block-changed",
+						fmt.Sprintf("node %d: the HTTP API reports a different body for delivered block %d", n.Idx, i),
+						map[string]interface{}{"node": n.Idx, "delivered_plus_response": want, "reported": g, "via": "/block/"})
+					return
+				}
+				if i == s.lastIndex && i >= 2 {
+					// a range ending at the last block
+					start := i - 2 - (nw.Step/5)%3
+					if start < 0 {
+						start = 0
+					}
+					var list []*hg.Block
+					// sometimes asking for more than there is: the answer ends at the last block
+					over := (nw.Step / 5) % 2 * 3
+					lastStored := n.Node.GetLastBlockIndex()
+					if _, err := apiGet(mux, fmt.Sprintf("/blocks/%d?count=%d", start, i-start+1+over), &list); err == nil && lastStored == i {
+						nw.Res.count("finality_range_reads_through_http_api", 1)
+						if len(list) != i-start+1 {
+							nw.violate(m.Prop, m.Prop+":delivered-block-changed",
+								fmt.Sprintf("node %d: the HTTP API returned %d blocks for the range %d..%d", n.Idx, len(list), start, i), map[string]interface{}{"node": n.Idx, "via": "/blocks/"})
+							return
+						}
+						for k, lb := range list {
+							if w2, ok := s.bodies[start+k]; ok && lb != nil && (normBody(lb.Body) != w2 || lb.Index() != start+k) {
+								nw.violate(m.Prop, m.Prop+":delivered-block-changed",
+									fmt.Sprintf("node %d: the HTTP API range %d..%d reports another body at position %d (block %d)", n.Idx, start, i, k, start+k),
+									map[string]interface{}{"node": n.Idx, "via": "/blocks/"})
+								return
+							}
+						}
+					}
+				}
 			}
 			s.sigs[i] = cur
 		}
